@@ -122,6 +122,13 @@ def stepInstr (s : St) (i : Instr) : Sum St End :=
         | .died c => .inr (.normal { vm := vm, ctx := c })
         | .fault w => .inr (.fault w))
      | .stop _ _ => .inr (.fault "stack"))
+  | 36 =>                                                   -- ATTR_ADD <slat>: `setAttr(slat, 0, int32(val + getAttr(slat, 0)))`
+    (match pop s.vm with
+     | .ok v vm => (match opAttrSet s.ctx (ps.getD 0 0) 0 (i16 (i32 (v + curAttr s.ctx (ps.getD 0 0)))) with
+        | .cont c => .inl { vm := { vm with dp := vm.dp + 1 }, ctx := c }
+        | .died c => .inr (.normal { vm := vm, ctx := c })
+        | .fault w => .inr (.fault w))
+     | .stop _ _ => .inr (.fault "stack"))
   | 38 =>                                                   -- ATTR_SET_SLOT <slat>: value + map offset for attach.to
     (match pop s.vm with
      | .ok v vm =>
